@@ -158,6 +158,9 @@ class SimLoop(asyncio.AbstractEventLoop):
         return self._exc_handler
 
     def default_exception_handler(self, context):
+        if "was destroyed but it is pending" in str(context.get("message")) or \
+                "was never retrieved" in str(context.get("message")):
+            return   # garbage collection of a crashed node's tasks/futures: a simulator artefact, not engine behaviour
         self.sim.errors.append(("loop", context.get("message"), repr(context.get("exception"))))
         self.sim.log("LOOPERR", context.get("message"), repr(context.get("exception")))
 
